@@ -124,7 +124,8 @@ class Resolver:
             elif side == "FULL":
                 columns = list(dict.fromkeys(left + right))
             elif kind == "INNER":
-                columns = list(dict.fromkeys(left).keys() & dict.fromkeys(right).keys())
+                right_columns = set(right)
+                columns = [col for col in dict.fromkeys(left) if col in right_columns]
         else:
             columns = set_op.named_selects
 
